@@ -150,22 +150,27 @@ Fixpoint del_addrs (h : N) (addrs : list N) (sf : state * bool) : state * bool :
 Definition del_ridx (h : N) (hi : hinfo) (s : state) : state :=
   if is_some_id (mget (hi_remote hi) (ridx s)) h then set_ridx s (mdel (hi_remote hi) (ridx s)) else s.
 
-Fixpoint del_rels (rs : list N) (m : amap N) : amap N :=
+(* Relays entries are only cleared when they point to the hostinfo being deleted *)
+Fixpoint del_rels (h : N) (rs : list N) (m : amap N) : amap N :=
   match rs with
   | [] => m
-  | r :: t => del_rels t (mdel r m)
+  | r :: t => del_rels h t (if is_some_id (mget r m) h then mdel r m else m)
   end.
 
-(* unlockedDeleteHostInfo (Indexes and Relays are cleared without an ownership test, as in the code).
-   unlockedDisestablishVpnAddrRelayFor only rewrites Relay.State and is not modelled here. *)
+(* Indexes likewise: a hostinfo can be deleted more than once and its index may have been handed out again *)
+Definition del_idx (h : N) (hi : hinfo) (s : state) : state :=
+  if is_some_id (mget (hi_local hi) (idx s)) h then set_idx s (mdel (hi_local hi) (idx s)) else s.
+
+(* unlockedDeleteHostInfo.  unlockedDisestablishVpnAddrRelayFor only rewrites Relay.State and is not
+   modelled here. *)
 Definition delete_hi (h : N) (s : state) : state * bool :=
   match mget h (infos s) with
   | None => (s, true)
   | Some hi =>
       let (s1, final) := del_addrs h (hi_addrs hi) (s, true) in
       let s2 := del_ridx h hi s1 in
-      let s3 := set_idx s2 (mdel (hi_local hi) (idx s2)) in
-      let s4 := set_rel s3 (del_rels (hi_relays hi) (rel s3)) in
+      let s3 := del_idx h hi s2 in
+      let s4 := set_rel s3 (del_rels h (hi_relays hi) (rel s3)) in
       (gmove h Main Dead s4, final)
   end.
 
@@ -305,12 +310,14 @@ Fixpoint pdel_addrs (h : N) (addrs : list N) (m : amap N) : amap N :=
   | a :: r => pdel_addrs h r (if is_some_id (mget a m) h then mdel a m else m)
   end.
 
-(* HandshakeManager.unlockedDeleteHostInfo: vpnIps entries are removed only when they point to this
-   hostinfo, the index entry is removed without an ownership test *)
+(* HandshakeManager.unlockedDeleteHostInfo: vpnIps entries and the index entry are removed only when they
+   point to this hostinfo *)
 Definition pend_unlink (h : N) (s : state) : state :=
   match mget h (infos s) with
   | None => s
-  | Some hi => set_pidx (set_pvpn s (pdel_addrs h (hi_addrs hi) (pvpn s))) (mdel (hi_local hi) (pidx s))
+  | Some hi =>
+      let s1 := set_pvpn s (pdel_addrs h (hi_addrs hi) (pvpn s)) in
+      if is_some_id (mget (hi_local hi) (pidx s1)) h then set_pidx s1 (mdel (hi_local hi) (pidx s1)) else s1
   end.
 
 Definition pend_delete (h : N) (s : state) : state := gmove h Pend Dead (pend_unlink h s).
@@ -330,12 +337,12 @@ Definition resp (id : N) (addrs : list N) (remote : N) (cs : list N) (s : state)
   match gen_index cs with
   | None => (s, None)
   | Some (i, _) =>
-      let s0 := gset id Dead (set_infos s (mset id (mkHI addrs i remote []) (infos s))) in
+      let s0 := set_infos s (mset id (mkHI addrs i remote []) (infos s)) in
       match mget i (idx s0) with
-      | Some _ => (s0, Some (1, i))
+      | Some _ => (gset id Dead s0, Some (1, i))
       | None =>
           match mget i (pidx s0) with
-          | Some _ => (s0, Some (1, i))
+          | Some _ => (gset id Dead s0, Some (1, i))
           | None => (add_hi id s0, Some (0, i))
           end
       end
@@ -423,36 +430,6 @@ Fixpoint run (s : state) (ops : list op) : state :=
   match ops with
   | [] => s
   | o :: r => run (fst (step o s)) r
-  end.
-
-(* ---------- the region excluded by the theorems (finding: stale delete after index reuse) ---------- *)
-
-(* A delete is unsafe when an index the hostinfo carries (its local index in the map the delete clears, or
-   one of its relay indexes) is at that moment held by a *different* hostinfo: Indexes, Relays and the
-   pending indexes map are cleared by key without checking whom the entry points to. *)
-Definition free_or_own (h : N) (o : option N) : bool :=
-  match o with None => true | Some x => x =? h end.
-
-Definition safe (o : op) (s : state) : bool :=
-  match o with
-  | ODelete id =>
-      match mget id (infos s) with
-      | Some hi => free_or_own id (mget (hi_local hi) (idx s)) &&
-                   forallb (fun r => free_or_own id (mget r (rel s))) (hi_relays hi)
-      | None => true
-      end
-  | OPendDelete id =>
-      match mget id (infos s) with
-      | Some hi => free_or_own id (mget (hi_local hi) (pidx s))
-      | None => true
-      end
-  | _ => true
-  end.
-
-Fixpoint all_safe (s : state) (ops : list op) : bool :=
-  match ops with
-  | [] => true
-  | o :: r => safe o s && all_safe (fst (step o s)) r
   end.
 
 (* ---------- property statements (ghost free) --------------------------------------------------- *)
